@@ -742,3 +742,62 @@ def run_minpair(ctx, rep, cfg="Q", rule="MIN-PAIR", floor=9):
                               "the function without success, so an instant up to one second below Timestamp::MIN can be returned as Ok"
                               % (show(S, maxd=3)[:80], show(N, maxd=3)[:80]))
     rep.floor(rule + " sites", n, floor)
+
+
+# ---------------------------------------------------------------------------------------------------------------------
+# REM-CARRY: piecewise division of a two-limb value
+
+def run_remcarry(ctx, rep, cfg="Q", rule="REM-CARRY"):
+    """SignedDuration is a two-limb number (seconds, nanoseconds); dividing it limb by limb is exact only when every remainder is
+    carried into the next smaller limb"""
+    rep.rule(rule, "SignedDuration::checked_div divides the seconds and the nanoseconds separately by the same divisor; the quotient is "
+                   "the exact truncated quotient of the whole value only if the remainder of each limb is carried down: the "
+                   "nanosecond of the result is a term that contains, for every limb L that is divided by the divisor, the "
+                   "remainder `L % divisor` (seconds scaled by 10^9). A dropped `nanos % rhs` loses up to one nanosecond "
+                   "(1s 2ns / 3 = 333_333_333 instead of 333_333_334)")
+    prog = ctx.prog(cfg)
+    f = prog.fns.get("jiff::signed_duration::SignedDuration::checked_div")
+    if f is None:
+        rep.anchor_missing("signed_duration::SignedDuration::checked_div")
+        return
+    T = Terms(f)
+    sites = [(bi, t) for bi, t in mir.iter_calls(f) if t.get("path", "").endswith("SignedDuration::new_unchecked") or t.get("path", "").endswith("SignedDuration::new")]
+    aggs = [(bi, si, s) for bi, b in enumerate(f.blocks) for si, s in enumerate(b["st"])
+            if s["s"] == "=" and s["rv"]["k"] == "agg" and s["rv"].get("adt") == "signed_duration::SignedDuration"]
+    pairs = [(T.at_call(bi, t, 0), T.at_call(bi, t, 1), t["span"]["line"]) for bi, t in sites if len(t.get("args", [])) >= 2]
+    for (bi, si, s) in aggs:
+        d = dict(zip(s["rv"]["fields"], s["rv"]["ops"]))
+        if "secs" in d and "nanos" in d:
+            pairs.append((T.operand(d["secs"], pos=(bi, si)), T.operand(d["nanos"], pos=(bi, si)), s.get("ln")))
+    if not pairs:
+        rep.violation(rule, "checked_div", "anchor missing: no construction of the result found", f.loc())
+        return
+
+    def strip(t_):
+        while isinstance(t_, tuple) and t_ and t_[0] == "cast":
+            t_ = t_[1]
+        return t_
+
+    for (S, N, ln) in pairs:
+        divs = set()
+        for x in list(walk(S)) + list(walk(N)):
+            if isinstance(x, tuple) and x and x[0] == "bin" and x[1] == "Div":
+                a = strip(x[2])
+                if a[0] == "field" and a[2] in ("secs", "nanos"):
+                    divs.add((a[2], strip(x[3])))
+        rems = set()
+        for x in walk(N):
+            if isinstance(x, tuple) and x and x[0] == "bin" and x[1] == "Rem":
+                a = strip(x[2])
+                if a[0] == "field" and a[2] in ("secs", "nanos"):
+                    rems.add((a[2], strip(x[3])))
+        loc = "%s:%s" % (f.file, ln)
+        limbs = {l for (l, _d) in divs}
+        if limbs != {"secs", "nanos"}:
+            rep.violation(rule, "checked_div", "shape not recognised: expected self.secs and self.nanos each divided by the divisor, found %s" % sorted(limbs), loc)
+        elif divs <= rems:
+            rep.ok(rule, "checked_div", how="the result's nanosecond contains secs %% rhs and nanos %% rhs", loc=loc)
+        else:
+            rep.violation(rule, "checked_div", "the remainder of %s is not carried into the result's nanosecond: the quotient is not the exact "
+                          "truncated quotient of the whole duration (1s 2ns / 3 gives 333_333_333 ns instead of 333_333_334)"
+                          % sorted(l for (l, d_) in divs - rems), loc)
